@@ -255,8 +255,15 @@ def _entry_guards(c: Ctx, f: Func, depth: int = 0) -> frozenset:
                         kconst = isinstance(ast.parse(k, mode="eval").body, ast.Constant)
                     except SyntaxError:
                         kconst = False
-                    if d in amap and (kconst or k in amap):
-                        tr.add(f"K:{amap[d]}|{k if kconst else amap[k]}")
+                    d2 = amap.get(d)
+                    if d2 is None:
+                        # state.env -> <param>.env : a path below an argument
+                        for a_txt, pn_ in amap.items():
+                            if d.startswith(a_txt + ".") or d.startswith(a_txt + "["):
+                                d2 = pn_ + d[len(a_txt):]
+                                break
+                    if d2 is not None and (kconst or k in amap):
+                        tr.add(f"K:{d2}|{k if kconst else amap[k]}")
                 elif fact.startswith("T:") and fact[2:] in amap:
                     tr.add("T:" + amap[fact[2:]])
             here = tr if here is None else here & tr
@@ -555,6 +562,15 @@ def _reference_entry_keys(c: Ctx) -> set | None:
             if isinstance(n, ast.Assign) and len(n.targets) == 1 and isinstance(n.targets[0], ast.Subscript):
                 t = n.targets[0]
                 b = t.value
+                if isinstance(b, ast.Name):
+                    # references = state.env["references"]; references[label] = {...}
+                    fn_ = m.parents.get(n)
+                    while fn_ is not None and not isinstance(fn_, (ast.FunctionDef, ast.Module)):
+                        fn_ = m.parents.get(fn_)
+                    ds_ = [x.value for x in ast.walk(fn_) if isinstance(x, ast.Assign) and any(isinstance(t_, ast.Name) and t_.id == b.id for t_ in x.targets)] \
+                        if fn_ is not None else []
+                    if len(ds_) == 1:
+                        b = ds_[0]
                 if isinstance(b, ast.Subscript) and isinstance(b.slice, ast.Constant) and b.slice.value == "references":
                     if isinstance(n.value, ast.Dict) and all(isinstance(k, ast.Constant) for k in n.value.keys):
                         ks = {k.value for k in n.value.keys}          # type: ignore[union-attr]
@@ -640,7 +656,17 @@ def rule_partial(c: Ctx) -> RuleResult:
                 n_key += 1
                 k = site.slice          # type: ignore[attr-defined]
                 why = ""
-                if holds(f"K:{U(recv)}|{U(k)}"):
+                k_alias = None
+                if isinstance(k, ast.Name):
+                    # ref = match.group(1) ... entities[ref]: the guard was made on the defining expression
+                    defs_k = [x for x in own_nodes(f.node) if isinstance(x, ast.Name) and x.id == k.id and isinstance(x.ctx, ast.Store)]
+                    par_k = f.module.parents.get(defs_k[0]) if len(defs_k) == 1 else None
+                    if isinstance(par_k, ast.Assign) and len(par_k.targets) == 1 and par_k.targets[0] is defs_k[0]:
+                        inner = {x.id for x in ast.walk(par_k.value) if isinstance(x, ast.Name)}
+                        if all(len([y for y in own_nodes(f.node) if isinstance(y, ast.Name) and y.id == nm and isinstance(y.ctx, ast.Store)]) <= 1
+                               for nm in inner):
+                            k_alias = U(par_k.value)
+                if holds(f"K:{U(recv)}|{U(k)}") or (k_alias is not None and holds(f"K:{U(recv)}|{k_alias}")):
                     why = "the key is present: a membership test or a store of this key dominates the read, and nothing in between can remove it"
                 elif _in_try(f, site, {"KeyError", "LookupError"}):
                     why = "inside a try whose handler catches KeyError"
